@@ -113,7 +113,7 @@ def part_a(res, fa, si, codec, tier, seen):
     marker = cont.sync_marker()
     for lname, recs in lists:
         exp = cont.expected(node, defs, recs)
-        configs = [(iv, None) for iv in intervals(node, defs, recs, tier)] + [(1, 1), (1, 9), (16000, 9)]
+        configs = [(iv, None) for iv in intervals(node, defs, recs, tier)] + [(1, 1), (1, 9), (16000, 9)] + ([(16000, l) for l in (0, 2, 3, 4, 5, 6, 7, 8)] if codec != "null" else [])
         for iv, lvl in configs:
             info = {"part": "a", "schema": raw, "records": recs, "codec": codec, "sync_interval": iv, "level": lvl}
             note_case(info)
@@ -314,6 +314,75 @@ def part_m(res, fa, codec, seen):
                 continue
             if len(got) != len(exp) or not all(same(a, b) for a, b in zip(got, exp)):
                 res.add(Violation("c05.m", "independent-records-differ:marker-length", f"writer accepted a {n}-byte sync marker; independent parser recovers {short(got, 200)}", info))
+
+
+class FailOnce:
+    """A sink that refuses the n-th write() once (disk full), before taking any byte of it."""
+
+    def __init__(self, nth):
+        self.fo = io.BytesIO()
+        self.calls = 0
+        self.nth = nth
+        self.failed = False
+
+    def write(self, b):
+        self.calls += 1
+        if self.calls == self.nth and not self.failed:
+            self.failed = True
+            raise OSError(28, "No space left on device (injected)")
+        return self.fo.write(b)
+
+    def flush(self):
+        pass
+
+    def seekable(self):
+        return False
+
+
+def part_n(res, fa, codec, seen):
+    """The stream refuses one write; when that write was the FIRST of a block, nothing of the block reached the stream, and
+    a retried flush() must complete a file that an independent parser reads in full."""
+    from fastavro._write_py import Writer
+
+    S = {"type": "record", "name": "Rn", "fields": [{"name": "a", "type": "long"}, {"name": "s", "type": "string"}]}
+    recs = [{"a": i, "s": "r%d" % i} for i in range(6)]
+    node, defs = names.resolve(S)
+    exp = cont.expected(node, defs, recs)
+    # how many write() calls the header takes (so that the refused call is the first one of a block)
+    probe = FailOnce(10 ** 9)
+    Writer(probe, copy.deepcopy(S), codec=codec, sync_marker=cont.sync_marker())
+    header_writes = probe.calls
+    for first_block in (2, 6):
+        sink = FailOnce(header_writes + 1)
+        info = {"part": "n", "schema": S, "records": recs, "codec": codec, "fault": "first write of the first block refused once", "first_block_records": first_block}
+        note_case(info)
+        res.evals += 1
+        try:
+            w = Writer(sink, copy.deepcopy(S), codec=codec, sync_marker=cont.sync_marker(), sync_interval=10 ** 9)
+            for r in recs[:first_block]:
+                w.write(copy.deepcopy(r))
+            try:
+                w.flush()
+                res.add(Violation("c05.n", "fault-swallowed", "the stream's write error did not reach the caller of flush()", info))
+                continue
+            except OSError:
+                pass
+            w.flush()  # retried
+            for r in recs[first_block:]:
+                w.write(copy.deepcopy(r))
+            w.flush()
+        except Exception as e:
+            res.add(Violation("c05.n", f"retry-raised:{type(e).__name__}", f"after a refused first write of a block the retried flush raised {type(e).__name__}: {e}", info))
+            continue
+        data = sink.fo.getvalue()
+        seen.add(data)
+        try:
+            got, _ = container.records(container.parse(data))
+        except Exception as e:
+            res.add(Violation("c05.n", f"independent-parse-failed:{type(e).__name__}:after-refused-write", f"file completed after a refused write is rejected by an independent parser: {e}", info))
+            continue
+        if len(got) != len(exp) or not all(same(a, b) for a, b in zip(got, exp)):
+            res.add(Violation("c05.n", "independent-records-differ:after-refused-write", f"independent parser recovers {short(got, 200)} expected {short(exp, 200)}", info))
 
 
 class ForwardOnly:
@@ -589,6 +658,7 @@ def run_unit(unit, tier):
     elif unit[0] == "k":
         part_k(res, fa, unit[1], seen)
         part_m(res, fa, unit[1], seen)
+        part_n(res, fa, unit[1], seen)
     elif unit[0] == "c":
         part_c(res, fa, unit[1], seen)
     elif unit[0] == "d":
@@ -621,6 +691,9 @@ def replay(case):
         return res.violations
     elif part == "m":
         part_m(res, fa, case["codec"], set())
+        return res.violations
+    elif part == "n":
+        part_n(res, fa, case["codec"], set())
         return res.violations
     elif part == "g":
         si = [i for i, (n, r) in enumerate(cont.top_schemas()) if r == case["schema"]][0]
